@@ -227,10 +227,14 @@ UserRemove(n) ==
     /\ gh' = Bump(n)
 
 \* a stale temporary output file appears beside n (what a killed earlier build leaves behind)
-UserTmp(n) ==
-    /\ CanAct /\ n \in TmpFiles /\ ~HasTmp(n)
-    /\ tmp' = AddTmp(tmp, n, "f")
-    /\ hist' = Append(hist, [a |-> "tmp", n |-> n])
+\* (k = "f": a partial output file; k = "l": a dangling symbolic link, what `ln -s data $3` leaves when the build is killed
+\* before the data exists - whatever it is, it is removed before the next job of n starts)
+UserTmp(n, k) ==
+    \* (whatever was at $3 before is replaced: the step is possible in every state, so that the histories with this input
+    \* do not depend on what the commands before it left behind)
+    /\ CanAct /\ n \in TmpFiles
+    /\ tmp' = AddTmp(tmp, n, k)
+    /\ hist' = Append(hist, [a |-> "tmp", n |-> n, v |-> k])
     /\ UNCHANGED <<fs, clock, w, runid, locks, procs, cmd, ran, ncmds, pool, gh>>
 
 \* next version of the rule text (new content, new stamp)
@@ -484,6 +488,31 @@ Consider(p) ==
                       /\ UNCHANGED <<fs, tmp, clock, runid, locks, cmd, hist, ran, ncmds, pool, gh>>
                    ELSE Decide(p, t, w1, nxt)
 
+\* builder.rs (start_self): whatever an earlier, killed build left at $3 is removed inside the starting transaction, before
+\* that transaction is committed - a file operation the transaction does not cover.  A kill between the two leaves the
+\* database as it was and the stale file gone (harmless, but it is a state of its own).  Enabled exactly where Consider or
+\* Pass2 would go on to start the script of t.
+WouldRun(p, t, w1) ==
+    LET P  == procs[p]
+        e  == EnvOf(p)
+        sb == IF P.forced THEN [v |-> "dirty", need |-> <<>>, w |-> w1, gen |-> TRUE] ELSE ShouldBuild(w1, e, t)
+    IN /\ sb.v = "dirty" \/ (sb.v \notin {"failed", "cycle", "clean"} /\ P.oob)
+       /\ StartSelf(sb.w, e, t, Load(w1, e, t), Cands[t], NullStampPanics, OverrideStale).k = "run"
+       /\ ~(StaleTmpDirBug /\ TmpDir(t))
+
+UnlinkStale(p) ==
+    LET P == procs[p] IN
+    /\ P.kind = "redo" /\ P.tok = 1 /\ ~(P.err # 0 /\ ~P.keep)
+    /\ \E t \in {x[1] : x \in tmp} :
+          /\ \/ /\ P.pc = "pass1" /\ P.i <= Len(P.targs) /\ t = P.targs[P.i]
+                /\ t \notin {P.targs[k] : k \in 1..(P.i - 1)}
+                /\ P.unl \/ (t \notin P.cyc /\ locks[t] = NoPid)
+             \/ /\ P.pc = "pass2" /\ P.queue # << >> /\ P.jobs = {} /\ t = Head(P.queue)
+                /\ locks[t] = NoPid /\ t \notin P.cyc /\ ~IsFailedRow(Load(w, EnvOf(p), t), P.rid)
+          /\ WouldRun(p, t, FromName(w, t))
+          /\ tmp' = DelTmp(tmp, t)
+    /\ UNCHANGED <<fs, clock, w, runid, locks, procs, cmd, hist, ran, ncmds, pool, gh>>
+
 \* The log viewer learns that the writer of a log has finished by a momentary exclusive try_lock on the *target* lock
 \* (log.rs: is_locked).  A builder's try_lock can therefore fail although nobody builds the target; the target then goes
 \* through the queue and the second phase like one that another builder holds.  The viewer only looks at targets whose
@@ -507,7 +536,10 @@ NoneRunning(P) == \A j \in P.jobs : j.st # "run"
 Pass2(p) ==
     LET P == procs[p] IN
     /\ P.kind = "redo" /\ P.pc = "pass2"
-    /\ P.queue # << >> /\ NoneRunning(P)
+    \* wait_all has returned (no child is running) and the completion handlers of all finished jobs have been run
+    \* (`while let Some(Some(())) = job_futures.next().now_or_never() {}`, fix 642c3b3): their results are recorded, their
+    \* locks released and a failure among them is known before the next locked target is taken from the queue
+    /\ P.queue # << >> /\ P.jobs = {}
     /\ ~(P.err # 0 /\ ~P.keep)
     /\ P.tok = 1
     /\ LET t   == Head(P.queue)
@@ -618,7 +650,7 @@ Acquire(p) ==
     LET P == procs[p] IN
     /\ P.kind = "redo" /\ P.tok = 0 /\ pool[Root(p)] > 0
     /\ \/ P.pc = "pass1" /\ P.i <= Len(P.targs)
-       \/ P.pc = "pass2" /\ P.queue # << >> /\ NoneRunning(P)
+       \/ P.pc = "pass2" /\ P.queue # << >> /\ P.jobs = {}
     /\ procs' = [procs EXCEPT ![p].tok = 1]
     /\ pool' = [pool EXCEPT ![Root(p)] = @ - 1]
     /\ UNCHANGED <<fs, tmp, clock, w, runid, locks, cmd, hist, ran, ncmds, gh>>
@@ -848,16 +880,17 @@ ScriptResumeA == \E p \in DOMAIN procs : ScriptResume(p)
 UnlockedStepA == \E p \in DOMAIN procs : UnlockedStep(p)
 OrphanReapA == \E p \in DOMAIN procs : OrphanReap(p)
 InitRunA    == \E p \in DOMAIN procs : InitRun(p)
+UnlinkStaleA == \E p \in DOMAIN procs : UnlinkStale(p)
 
 ProcStep ==
     \/ DeclareA \/ ConsiderA \/ Pass2A \/ FinishA \/ AcquireA \/ ReleaseA
     \/ ReapA \/ RecCopyA \/ RecFsA \/ RecCommitA \/ UnlDoneA
-    \/ ScriptStepA \/ ScriptResumeA \/ UnlockedStepA \/ OrphanReapA \/ InitRunA
+    \/ ScriptStepA \/ ScriptResumeA \/ UnlockedStepA \/ OrphanReapA \/ InitRunA \/ UnlinkStaleA
 
 UserStep ==
     \/ \E n \in UserFiles : UserWrite(n)
     \/ \E n \in RmFiles : UserRemove(n)
-    \/ \E n \in TmpFiles : UserTmp(n)
+    \/ \E n \in TmpFiles : \E k \in {"f", "l"} : UserTmp(n, k)
     \/ \E n \in DOMAIN Links : \E i \in 1..Len(Links[n]) : UserRelink(n, Links[n][i])
     \/ \E df \in DoEdits : DoEdit(df) \/ DoRemove(df) \/ DoAdd(df)
     \/ \E c \in Cmds : StartBuild(c) \/ Query(c)
@@ -866,7 +899,7 @@ UserStep ==
 Next ==
     \/ DeclareA \/ ConsiderA \/ Pass2A \/ FinishA \/ AcquireA \/ ReleaseA
     \/ ReapA \/ RecCopyA \/ RecFsA \/ RecCommitA \/ UnlDoneA
-    \/ ScriptStepA \/ ScriptResumeA \/ UnlockedStepA \/ OrphanReapA \/ InitRunA
+    \/ ScriptStepA \/ ScriptResumeA \/ UnlockedStepA \/ OrphanReapA \/ InitRunA \/ UnlinkStaleA
     \/ EndBuild \/ EndPar \/ UserStep
     \/ CrashTree \/ \E p \in DOMAIN procs : CrashOne(p)
 
